@@ -796,6 +796,9 @@ v("c14-n-key-concat", "C14", "none", [(MGR, "\treturn fmt.Sprintf(\"%s%s\", keyP
 v("c14-n-key-sprintf-one-verb", "C14", "none", [(MGR, "\treturn fmt.Sprintf(\"%s%s\", keyPrefix, name)", "\treturn fmt.Sprintf(\"/tables/%s\", name)")])
 v("c14-n-key-via-local", "C14", "none", [(MGR, "\treturn fmt.Sprintf(\"%s%s\", keyPrefix, name)", "\tk := keyPrefix + name\n\treturn k")])
 v("c02-existence-predicate-skips-reset", "C02", "C02.i", [(TXN, "\t\t\t\tif !txnCompareSingle(cmp, value) {\n\t\t\t\t\treturn false, nil\n\t\t\t\t}\n\n\t\t\t\tkeyBuf.Reset()", "\t\t\t\tif cmp.TargetUnion == nil {\n\t\t\t\t\treturn true, nil\n\t\t\t\t}\n\t\t\t\tif !txnCompareSingle(cmp, value) {\n\t\t\t\t\treturn false, nil\n\t\t\t\t}\n\n\t\t\t\tkeyBuf.Reset()")], "agent change C02-r5m1")
+SNAPW = "replication/snapshot/snapshot.go"
+v("c18-readfrom-error-before-bytes", "C18", "C18.b", [(SNAPW, "\t\tn, err := r.Read(chunk)\n\t\tif n > 0 {", "\t\tn, err := r.Read(chunk)\n\t\tif err != nil {\n\t\t\tif errors.Is(err, io.EOF) {\n\t\t\t\tbreak\n\t\t\t}\n\t\t\treturn count, err\n\t\t}\n\t\tif n > 0 {")], "agent change C18-r5m1: bytes handed out together with io.EOF are dropped")
+v("c18-n-readfrom-zero-read-continue", "C18", "none", [(SNAPW, "\t\tn, err := r.Read(chunk)\n\t\tif n > 0 {", "\t\tn, err := r.Read(chunk)\n\t\tif n == 0 && err == nil {\n\t\t\tcontinue\n\t\t}\n\t\tif n > 0 {")])
 v("c11-create-starts-recovery-id", "C11", "C11.g", [(MGR, "\treturn created, m.startTable(created.Name, created.ClusterID)", "\treturn created, m.startTable(created.Name, created.RecoverID)")], "a third call site that starts a recovery shard with the table-name listener (K2 is keyed to Restore, K3 to reconcile)")
 v("c11-n-difftables-only-serving-ids", "C11", "none", [(MGR, "\t\tif t.RecoverID != 0 {\n\t\t\ttableIDs[t.RecoverID] = t\n\t\t}\n", "")], "the reconciliation no longer starts recovery shards: the reconcile site is not a recovery start (K3 line disappears, no alarm)")
 
